@@ -1,6 +1,7 @@
 import Exetera.Props.C07
 import Exetera.Props.C10.Basic
 import Exetera.Model.KernelSitesGroupBy
+import Exetera.Model.KernelPathsGroupBy
 /-!
 # C10 — group-by: `check_if_sorted_for_multi_fields` and the kernel pipeline of `DataFrame.groupby` (owning property: C07)
 -/
@@ -8,6 +9,14 @@ namespace Exetera.Props.C10
 open Exetera Exetera.GroupBy Exetera.Spec Exetera.Spans
 
 theorem access_sites_covered_group_by : ∀ k ∈ KernelSites.groupBySites, lookup k.1 = some k := by decide +kernel
+
+/-- the PATH CONDITION of every subscript occurrence in these kernels (enclosing loop guards, `if` / `elif` tests, negated
+    `else` branches and early exits), as regenerated from the current source (`Gen/KernelPaths.lean`), is exactly the one the
+    model was written against (`Model/KernelPathsGroupBy.lean`): dropping or changing a test that dominates a subscript breaks
+    the build; and the table covers exactly the kernels of the site table -/
+theorem access_paths_covered_group_by :
+    (∀ k ∈ KernelPaths.groupByPaths, lookupPaths k.1 = some k) ∧
+    KernelPaths.groupByPaths.map (·.1) = KernelSites.groupBySites.map (·.1) := by decide +kernel
 
 example : KernelSites.groupBySites.length = 1 := by decide
 
